@@ -171,6 +171,61 @@ func propC04(c *ctx) error {
 			res.violate(rc.toJ(), nt.want, J{"st": impl.St, "out": impl.text(), "err": trunc(impl.Err, 160)}, "nested range / struct items: loop variables not bound as specified")
 		}
 	}
+	// files of ONE manager whose range directives sit at the same line:column but iterate different collections
+	// (anything remembered per source position must also know the file and the expression), executed in every order
+	{
+		objs := []struct{ expr, want string }{{"ints", "45"}, {"strs", "pq"}, {"one", "9"}, {"nest[0]", "12"}, {"'ab'", "9798"}}
+		data := vMap(kv{"ints", vIntSlice(4, 5)}, kv{"strs", vStrSlice("p", "q")}, kv{"one", vIntSlice(9)},
+			kv{"nest", vAnySlice(vAnySlice(vInt(1), vInt(2)), vAnySlice(vInt(3)))}).j
+		for a := 0; a < len(objs); a++ {
+			for b := 0; b < len(objs); b++ {
+				if a == b || (c.quick() && (a+b)%2 == 0) {
+					continue
+				}
+				mkf := func(o string) string { return `<ul><li :range="i, x : ` + o + `" :text="${x}">o</li></ul>` }
+				files := [][2]string{{"a.html", mkf(objs[a].expr)}, {"b.html", mkf(objs[b].expr) + `<div :define="fr"><li :range="i, x : ` + objs[a].expr + `" :text="${x}">o</li></div>`}}
+				wantOf := func(w string) string {
+					out := "<ul>"
+					for _, ch := range strings.Split(w, "") {
+						out += "<li>" + ch + "</li>"
+					}
+					return out + "</ul>"
+				}
+				if objs[a].expr == "'ab'" || objs[b].expr == "'ab'" {
+					continue // bytes of a string print as numbers: covered by the matrix above
+				}
+				for _, order := range [][]string{{"a.html", "b.html", "a.html"}, {"b.html", "a.html", "b.html"}} {
+					rc0 := &renderCase{Files: files, Tpl: order[0], Data: data}
+					m, lerr, pp := implLoad(rc0, nil)
+					if lerr != nil || pp != nil {
+						res.SelfTest = append(res.SelfTest, "C04 twin files do not load")
+						break
+					}
+					for step, name := range order {
+						want := wantOf(objs[a].want)
+						if name == "b.html" {
+							want = wantOf(objs[b].want)
+						}
+						d, _, _ := rc0.goData(&callLog{})
+						out := implExec(m, name, d, &callLog{}, -1, renderOut{Load: "ok"})
+						res.S3Checked++
+						res.count("same_position_range_cases")
+						if out.St != "ok" || out.text() != want {
+							res.violate(J{"files": files, "order": order, "step": step + 1, "tpl": name}, want, J{"st": out.St, "out": out.text(), "err": trunc(out.Err, 120)},
+								"a range at the same source position in another file of the same manager iterates the wrong collection")
+						}
+					}
+				}
+				for _, name := range []string{"a.html", "b.html"} {
+					rc := &renderCase{Files: files, Tpl: name, Data: data}
+					if _, _, err := compareRender(c, rc, true); err != nil {
+						return err
+					}
+					res.eval(caseKey(rc), true, J{"files": files, "tpl": name})
+				}
+			}
+		}
+	}
 	// known finding F20: a header-less object expression containing ':' is split at that colon
 	for _, src := range []string{`<i :range="ints[1:]" :text="x">o</i>`, `<i :range="t ? ints : one" :text="x">o</i>`} {
 		rc := &renderCase{Files: [][2]string{{"t", src}}, Tpl: "t", Data: vMap(kv{"ints", vIntSlice(4, 5)}, kv{"one", vIntSlice(9)}, kv{"t", vBool(true)}).j, Sig: []string{"headerless-object-with-colon"}}
